@@ -18,6 +18,64 @@ impl<'a, 'b> App<'a, 'b> {
     pub fn arg<A: Into<clap_real::Arg<'a, 'b>>>(self, a: A) -> Self {
         App(self.0.arg(a))
     }
+    pub fn args(self, args: &[clap_real::Arg<'a, 'b>]) -> Self {
+        App(self.0.args(args))
+    }
+    pub fn author<S: Into<&'b str>>(self, author: S) -> Self {
+        App(self.0.author(author))
+    }
+    pub fn long_about<S: Into<&'b str>>(self, about: S) -> Self {
+        App(self.0.long_about(about))
+    }
+    pub fn long_version<S: Into<&'b str>>(self, ver: S) -> Self {
+        App(self.0.long_version(ver))
+    }
+    pub fn bin_name<S: Into<String>>(self, name: S) -> Self {
+        App(self.0.bin_name(name))
+    }
+    pub fn after_help<S: Into<&'b str>>(self, help: S) -> Self {
+        App(self.0.after_help(help))
+    }
+    pub fn before_help<S: Into<&'b str>>(self, help: S) -> Self {
+        App(self.0.before_help(help))
+    }
+    pub fn usage<S: Into<&'b str>>(self, usage: S) -> Self {
+        App(self.0.usage(usage))
+    }
+    pub fn help<S: Into<&'b str>>(self, help: S) -> Self {
+        App(self.0.help(help))
+    }
+    pub fn setting(self, setting: clap_real::AppSettings) -> Self {
+        App(self.0.setting(setting))
+    }
+    pub fn settings(self, settings: &[clap_real::AppSettings]) -> Self {
+        App(self.0.settings(settings))
+    }
+    pub fn global_setting(self, setting: clap_real::AppSettings) -> Self {
+        App(self.0.global_setting(setting))
+    }
+    pub fn unset_setting(self, setting: clap_real::AppSettings) -> Self {
+        App(self.0.unset_setting(setting))
+    }
+    pub fn set_term_width(self, width: usize) -> Self {
+        App(self.0.set_term_width(width))
+    }
+    pub fn arg_from_usage(self, usage: &'a str) -> Self {
+        App(self.0.arg_from_usage(usage))
+    }
+    pub fn args_from_usage(self, usage: &'a str) -> Self {
+        App(self.0.args_from_usage(usage))
+    }
+    pub fn group(self, group: clap_real::ArgGroup<'a>) -> Self {
+        App(self.0.group(group))
+    }
+    pub fn get_matches_safe(self) -> clap_real::Result<clap_real::ArgMatches<'a>> {
+        let argv: Vec<String> = dsim::with(|w| {
+            let p = w.cur_proc();
+            w.procs[p].argv.clone()
+        });
+        self.0.get_matches_from_safe(argv)
+    }
     pub fn get_matches(self) -> clap_real::ArgMatches<'a> {
         let argv: Vec<String> = dsim::with(|w| {
             let p = w.cur_proc();
